@@ -469,7 +469,7 @@ func checkC08(c *hx.Checker) {
 			}
 		}
 	}
-	for _, sh := range [][]int{{4, 5, 6}, {7, 2, 9}, {2, 3, 4, 5}, {33, 4}, {3, 1367}, {67, 5, 13}, {257, 129}, {4099}, {65, 1009}, {70001}} {
+	for _, sh := range [][]int{{4, 5, 6}, {7, 2, 9}, {2, 3, 4, 5}, {33, 4}, {3, 1367}, {67, 5, 13}, {257, 129}, {4099}, {65, 1009}, {70001}, {3, 5, 17, 19}, {2, 2, 33, 65}} {
 		data := ref.Distinct(ref.F32, sh)
 		r := len(sh)
 		for _, p := range perms(r) {
@@ -517,6 +517,59 @@ func checkC08(c *hx.Checker) {
 		expe, erre := ref.Expand(data, tg)
 		add("Expand", nil, []*ref.T{data, ref.I64Vec(tg...)}, expe, erre, true, "op", nil, "large"+fmt.Sprint(tg), "large")
 	}
+	// index values around 256 (tables of pre-built slicers / small-index fast paths), runs of consecutive indices that
+	// cross zero, and more than 256 indices at once
+	{
+		data := ref.Distinct(ref.F32, []int{300, 2})
+		long := make([]int64, 300)
+		for i := range long {
+			long[i] = int64((i * 7) % 300)
+		}
+		for _, iv := range [][]int64{{254, 255, 256, 257}, {256}, {-1, 0, 1}, {-2, -1, 0, 1, 2}, {299, -300, 256, -256}, {1, 0, -1}, {0, 1, 2, 3}, {-3, -2, -1}, long} {
+			idx := ref.I64Vec(iv...)
+			expg, errg := ref.Gather(data, idx, 0)
+			add("Gather", []hx.Attr{hx.AInt("axis", 0)}, []*ref.T{data, idx}, expg, errg, true, "op", nil, fmt.Sprintf("index-runs %v", iv[:min(len(iv), 6)]), "large", "index-runs")
+		}
+		small := ref.Distinct(ref.F32, []int{4, 3})
+		for _, iv := range [][]int64{{-1, 0, 1}, {-2, -1, 0}, {0, 1, 2}, {-4, -3, -2, -1, 0, 1, 2, 3}, {3, 2, 1, 0, -1}} {
+			for ax := 0; ax < 2; ax++ {
+				if ax == 1 && len(iv) > 5 {
+					continue
+				}
+				idx := ref.I64Vec(iv...)
+				if ax == 1 {
+					for i := range idx.V {
+						if v := int64(idx.V[i]); v > 2 || v < -3 {
+							idx.V[i] = 0
+						}
+					}
+				}
+				expg, errg := ref.Gather(small, idx, ax)
+				add("Gather", []hx.Attr{hx.AInt("axis", int64(ax))}, []*ref.T{small, idx}, expg, errg, true, "op", nil, fmt.Sprintf("index-runs-small ax=%d %v", ax, iv), "index-runs")
+			}
+		}
+	}
+	// Expand of a single element, bit-exact: negative zero, NaN payloads, the smallest subnormal
+	for _, dt := range []ref.DT{ref.F32, ref.F64} {
+		for _, bits := range specialBits(dt) {
+			for _, sh := range [][]int{{1}, {1, 1}, {}} {
+				one := &ref.T{DT: dt, Shape: sh, V: []uint64{bits}}
+				for _, tg := range [][]int64{{3}, {2, 3}, {1}} {
+					expe, erre := ref.Expand(one, tg)
+					add("Expand", nil, []*ref.T{one, ref.I64Vec(tg...)}, expe, erre, true, "op", nil, fmt.Sprintf("single-element %s bits=%x %v->%v", dt, bits, sh, tg), "single-element-special")
+				}
+			}
+		}
+	}
 	runOpJobs(c, jobs)
 	runReuseJobs(c, jobs)
+}
+
+// specialBits: bit patterns whose identity a copy must preserve (negative zero, a NaN with payload, infinities, the
+// smallest subnormal, an ordinary value).
+func specialBits(dt ref.DT) []uint64 {
+	if dt == ref.F32 {
+		return []uint64{0x80000000, 0x7fc00001, 0xff800000, 0x00000001, 0x3fc00000}
+	}
+	return []uint64{0x8000000000000000, 0x7ff8000000000001, 0xfff0000000000000, 0x0000000000000001, 0x3ff8000000000000}
 }
